@@ -17,6 +17,7 @@
 #include <sstream>
 #include <sys/mman.h>
 #include <sys/resource.h>
+#include <execinfo.h>
 #include <sys/stat.h>
 #include <sys/wait.h>
 #include <unistd.h>
@@ -243,6 +244,10 @@ struct Kernel {
         setrlimit(RLIMIT_STACK, &rl);
         struct rlimit core; core.rlim_cur = core.rlim_max = 0; setrlimit(RLIMIT_CORE, &core);
         std::set_terminate([]() { _exit(78); });
+        if (getenv("VERIF_CRASH_BT")) {     // debug aid: call stack of a fatal signal (inherited by fault-branch grandchildren)
+          auto h = [](int sg) { void* bt[40]; int n = backtrace(bt, 40); dprintf(2, "CRASH signal %d\n", sg); backtrace_symbols_fd(bt, n, 2); signal(sg, SIG_DFL); raise(sg); };
+          signal(SIGABRT, h); signal(SIGSEGV, h); signal(SIGFPE, h);
+        }
         // the request: plans separated by a line "\x1e"
         std::vector<Plan> plans;
         {
